@@ -226,3 +226,29 @@ Proof.
   intros V NT. change c with (w_cfg (init c)) at 1.
   apply sug_restart_walk_model; [exact (all_invs c [] V eq_refl)|apply SwInv_init|exact NT].
 Qed.
+
+(* ------------------------------------------------------------------ the raise clause: an admissible raise is honoured *)
+Theorem raise_step_model w a : raise_step (w_cfg w) (project w) a (project (step w a)) = true.
+Proof.
+  unfold raise_step. destruct a; try reflexivity.
+  unfold project at 1. cbn [pj_exp]. destruct (w_exp w) as [e|] eqn:He; [|reflexivity]. cbn [pe_max pe_conds pe_deleting].
+  destruct (e_max e) as [m|] eqn:Hm; [|reflexivity].
+  cbn [step]. rewrite He, Hm.
+  assert (Eq : (negb (pe_completed {| pe_max := Some m; pe_fin := e_fin e; pe_deleting := e_deleting e; pe_conds := es_conds (e_st e);
+                                      pe_counts := es_counts (e_st e); pe_classes := es_classes (e_st e); pe_opt := es_opt (e_st e);
+                                      pe_ctime := is_some (es_ctime (e_st e)) |})
+               || match get_cond (es_conds (e_st e)) ESucceeded with
+                  | Some c => cstatus_eqb (cstat c) CTrue && Nat.eqb (creason c) RMaxTrialsReached &&
+                              match c_resume (w_cfg w) with LongRunning | FromVolume => true | Never => false end
+                  | None => false end)
+              = (negb (e_completed (e_st e)) || restartable (w_cfg w) (e_st e))) by reflexivity.
+  rewrite Eq.
+  destruct ((m <? n) && negb (e_deleting e) && (negb (e_completed (e_st e)) || restartable (w_cfg w) (e_st e))); [|reflexivity].
+  unfold project. cbn. apply Z.eqb_refl.
+Qed.
+
+Theorem raise_steps_model w acts : all_steps (raise_step (w_cfg w)) (project w) (msteps w acts) = true.
+Proof.
+  revert w. induction acts as [|a l IH]; intro w; [reflexivity|]. cbn [msteps all_steps]. rewrite raise_step_model. cbn [andb].
+  rewrite <- (step_cfg w a). apply IH.
+Qed.
